@@ -581,7 +581,7 @@ func routeFacts() {
 		rab = squash(src(ra.Body))
 	}
 	add("leaderReplayUsesWrapperCallbackAndEntryArgs", "Bool", boolLean(strings.Contains(rb, "for _, writeRequest := range logEntryValue.GetRequests().Writes { if _, err = lc.db.ProcessWrite(writeRequest, entry.Offset, entry.Timestamp, WrapperUpdateOperationCallback); err != nil { return err } }") &&
-		strings.Contains(rb, "logEntryValue := &proto.LogEntryValue{}")),
+		strings.Contains(rb, "logEntryValue := &proto.LogEntryValue{} if err = logEntryValue.UnmarshalVT(entry.Value); err != nil { return err }")),
 		"server/leader_controller.go: applyAllEntriesIntoDBLoop", "the replay of a new leader applies every request of every entry with the entry's offset and timestamp, through the wrapper callback")
 	add("leaderReplayStartsAfterDbCommitOffset", "Bool", boolLean(strings.Contains(rab, "dbCommitOffset, err := lc.db.ReadCommitOffset()") &&
 		strings.Contains(rab, "r, err := lc.wal.NewReader(dbCommitOffset)")),
